@@ -31,12 +31,12 @@ def exec_emitted(model, body, env, fname="fragment", contract=None, ghost=None):
 
 def prove_all(run, model, obligations, group=None):
     """Discharge a list of (name, hyps, goal) and add the verdicts to the run."""
+    from .core import discharge_many
     axioms = model.axioms()
-    res = []
-    for name, hyps, goal in obligations:
-        r = discharge(Obligation(name, hyps, goal), axioms, run.timeout_ms, model)
+    obs = [Obligation(name, hyps, goal) for name, hyps, goal in obligations]
+    res = discharge_many(obs, axioms, run.timeout_ms, model)
+    for (name, _, _), r in zip(obligations, res):
         r.group = group or group_of(name)
-        res.append(r)
     run.results.extend(res)
     return res
 
